@@ -291,6 +291,7 @@ class Interp(seq_detached.DetachedMixin, S.SeqRun):
             alive, touched = self.pending_prelude(mo, r)
             if not alive:
                 return None
+            mo = self.view.objs[mo.mid]     # the prelude replaced the view: its values may have changed
         parts = []      # (kind, attr, value) in keyword order
         scal = [x for x in e.scalars() if not x.is_pk]
         mode = r.below(4)       # 0: collections only, 1: + plain values, 2: + reference, 3: everything
@@ -718,7 +719,14 @@ class Interp(seq_detached.DetachedMixin, S.SeqRun):
                             lambda: setattr(self.handle(m), sa.reverse.name, self.handle(t)),
                             lambda v: v.set_to_one(m, sa.reverse, t), mids=[m, t])
             else:
-                self.modify('del %s#%d' % (sa.rel, m), lambda: self.handle(m).delete(), lambda v: v.delete(m), mids=[m])
+                before = dict((o.mid, dict(o.vals)) for o in self.view.live())
+                st, res = self.modify('del %s#%d' % (sa.rel, m), lambda: self.handle(m).delete(), lambda v: v.delete(m),
+                                      mids=[m])
+                if st == 'ok':
+                    # as in op_del: a key released by a pending delete and taken again makes the flush order matter (R2)
+                    for mid, vals in before.items():
+                        if self.view.objs[mid].deleted:
+                            self._note_keys_released(self.schema.by_name[self.view.objs[mid].ent], vals)
         else:
             owners = [o for o in self.live_sorted() if self.schema.by_name[o.ent].sets()]
             ids = [o.mid for o in owners]
